@@ -47,10 +47,11 @@ func NewWithOptions(opts *Options) *MemFS {
 	}
 
 	vfs := &MemFS{
-		dirMode:  fs.ModeDir,
-		fileMode: 0,
-		lastId:   new(uint64),
-		name:     opts.Name,
+		dirMode:   fs.ModeDir,
+		fileMode:  0,
+		lastId:    new(uint64),
+		renameSeq: new(uint64),
+		name:      opts.Name,
 	}
 
 	_ = vfs.SetFeatures(features)
